@@ -76,7 +76,7 @@ def _moveaxis_placement(ctx, ck, move, fn) -> None:
         ck.incomplete('A1', target, f'MoveAxisOperator.mv could not be followed for {len(undecided)} of {n} (source, destination) requests, e.g. {undecided[0]}', instance='moveaxis argument order')
     else:
         ck.expect('A1', not wrong, target, f'for all {n} order types of (source, destination) on leaves of rank 1-4 the axes end up where numpy.moveaxis puts them',
-                  f'MoveAxisOperator does not move the axes like numpy.moveaxis for {len(wrong)} of {n} requests, e.g. {wrong[0] if wrong else ""}', instance='moveaxis argument order')
+                  f'MoveAxisOperator does not move the axes like numpy.moveaxis for {len(wrong)} of {n} requests, e.g. {wrong[0] if wrong else ""}', instance='moveaxis argument order', semantic=True)
 
 
 def run(ctx, ck) -> None:
@@ -230,7 +230,7 @@ def run(ctx, ck) -> None:
         same_sign = True
         why_ss = ''
     ck.expect('A2', same_sign, init, 'first axis after the last one (both non-negative or both negative) is refused, and nothing else, by the leaf-independent guards (all 49 order types of first, last, 0)',
-              f'the leaf-independent guards of RavelOperator do not refuse exactly "same sign and last < first": {why_ss}', instance='ravel same-sign order')
+              f'the leaf-independent guards of RavelOperator do not refuse exactly "same sign and last < first": {why_ss}', instance='ravel same-sign order', semantic=True)
     leaves_t = ('call', ('attr', ('attr', ('var', 'jax'), 'tree'), 'leaves'), (('var', 'in_structure'),), ())
     per_leaf = False
     for fs, env, p in rps:
@@ -266,7 +266,7 @@ def run(ctx, ck) -> None:
         skipped = [(a, b) for a, b in mixed if not reaches_leaf_check(a, b)]
         ck.expect('A2', not skipped, init, f'all {len(mixed)} pairs with one negative and one non-negative axis (zero included) reach the per-leaf check',
                   f'first_axis={skipped[0][0] if skipped else ""}, last_axis={skipped[0][1] if skipped else ""} (one negative axis, one non-negative) never reaches the per-leaf order check: '
-                  'for a leaf whose rank puts the first axis after the last one the operator is built and only fails when applied', instance='ravel mixed-sign coverage')
+                  'for a leaf whose rank puts the first axis after the last one the operator is built and only fails when applied', instance='ravel mixed-sign coverage', semantic=True)
     stores = [i for i, st in enumerate(init.body) if 'self.' in ast.unparse(st).split('=')[0] and isinstance(st, ast.Assign) or 'super().__init__' in ast.unparse(st)]
     raises = [i for i, st in enumerate(init.body) if any(isinstance(n, ast.Raise) for n in ast.walk(st))]
     # (whether the fields are stored before or after the refusals does not matter: a constructor that raises yields no object)
